@@ -40,11 +40,12 @@ func main() {
 	rep.Bounds["batches"] = "k=0: position family, slot pattern; k=1: same family {pattern[0],1,358}; k=2: neighbour hour (previous hour for hour 0, else next hour: crosses day/month/year for the edge positions), slot pattern; k>=3 alternating, slots {k,359-k}"
 	rep.Bounds["shapes"] = "full: m1{host=a: sum,min,max,last,first; host=b: sum,last} m2{host=b: sum,max}; one-sum: m1{host=a: sum}; values integers 1..9"
 	if part == "crash" {
+		rep.Rule = "every history runs on a fresh real engine directory with the oracle after every step; during every rollup step the directory tree is captured after every kv seam call and after every rollup job commit; every distinct image (states) is recovered by a fresh engine, rolled up again and compared with the model (transitions). distinct = distinct history; non-trivial = at least one recovered image had live target reference marks AND live source rollup marks (the kill hit between the two commits)"
 		rep.Bounds["families"] = "all sequences over {F,r} of length <=4 (quick) / <=5 (thorough) with >=1 effective rollup x 2 (3) positions whose neighbour family lies in another source store (one active rollup goroutine at a time) x shapes; during every r step the directory tree is captured after every kv seam call (mkDir, encodeToml, listDir, remove, removeDir) and after every rollup job's commit in a target family; every distinct image is recovered by a fresh engine + rollup again"
 	} else if part == "h4" {
-		rep.Bounds["families"] = "all sequences over {F,c,r,o} (<=4 quick, <=5 thorough) in which a compaction of >=2 not yet rolled up level-0 files of one source family precedes a rollup x 2 positions x 2 shapes"
+		rep.Bounds["families"] = "all sequences over {F,c,r,o} (<=5 quick, <=6 thorough) in which a compaction of >=2 not yet rolled up level-0 files of one source family precedes a rollup x 2 positions x 2 shapes"
 	} else {
-		rep.Bounds["families"] = "positions: 45 positions (hour 0/11/23 x day 1/15/last x {2019-02 (28d), 2020-02 (29d), 2019-04 (30d), 2019-12, 2020-01}) x slot patterns (quick 6, thorough all 15 non-empty subsets of {0,29,30,359}) x shapes x core histories; sequences: all sequences over {F,w,r,o} of length <=4 (quick) / <=5 (thorough), pruned (starts with a write, no trailing unflushed write, no 'oo', >=1 rollup with a not yet rolled up flushed file) x 3 (6) positions x pattern edges (+s29-30)"
+		rep.Bounds["families"] = "positions: 45 positions (hour 0/11/23 x day 1/15/last x {2019-02 (28d), 2020-02 (29d), 2019-04 (30d), 2019-12, 2020-01}) x slot patterns (quick 6, thorough all 15 non-empty subsets of {0,29,30,359}) x shapes x core histories; sequences: all sequences over {F,w,r,o} of length <=4 (quick) / <=5 (thorough), pruned (starts with a write, no trailing unflushed write, no 'oo', >=1 rollup with a not yet rolled up flushed file) x 4 (6) positions x patterns {edges, s29-30}; wide: 65538 series (ids across 65536) x {Fr} (thorough: Fr, FFr, FrFr, Fror)"
 	}
 	if f.Replay != "" {
 		var c Case
